@@ -18,7 +18,7 @@ from sa.src import Repo, AnalysisError          # noqa: E402
 from sa import report                            # noqa: E402
 
 PROPS = ['C01', 'C02', 'C03', 'C04', 'C05', 'C06', 'C07', 'C08', 'C09', 'C10',
-         'C11', 'C12', 'C13', 'C14', 'C15', 'C17', 'C18', 'C19', 'C20']
+         'C11', 'C12', 'C13', 'C14', 'C15', 'C16', 'C17', 'C18', 'C19', 'C20']
 
 
 def main(argv):
